@@ -10,8 +10,8 @@ import (
 )
 
 type ctlCase struct {
-	name string   // control function (zzCtl...)
-	rule string   // prefix of the rule that must produce a failing obligation
+	name string // control function (zzCtl...)
+	rule string // prefix of the rule that must produce a failing obligation
 	run  func(a *An, root *ssa.Function)
 }
 
